@@ -31,3 +31,22 @@ Theorem C04_worker_limit : forall ops w e', In e' (states start_policy_src wait_
   List.length (running e') <= maxw e'.
 Proof. exact (fun ops w e' H => worker_limit start_policy_src eq_refl wait_policy_src ops (init_ex w) (init_within w) e' H). Qed.
 Print Assumptions C04_worker_limit.
+
+(* ---- several runs in one interpreter: whatever an earlier run did with its executor (any max_workers, any calls, any worker
+   events, wherever it was abandoned), every state of a later run has at most *its own* max_workers worker processes — given that
+   each process runner builds an executor of its own (read from the source); *)
+Require Import LT.Model.Scope LT.Proofs.ScopeProofs.
+Theorem C04_every_run_has_its_own_limit : forall ops1 w1 e1 w2 ops2 e,
+  In e1 (states start_policy_src wait_policy_src (init_ex w1) ops1) ->
+  In e (states start_policy_src wait_policy_src (second_run_start exec_scope_src e1 w2) ops2) ->
+  List.length (running e) <= w2 /\ maxw e = w2.
+Proof. exact (second_run_worker_limit start_policy_src wait_policy_src eq_refl). Qed.
+Print Assumptions C04_every_run_has_its_own_limit.
+
+(* with an executor (or its tables) shared between runs the limit of the later run is not obeyed. *)
+Theorem C04_shared_executor_refuted : exists ops1 w1 e1 w2 ops2 e,
+  In e1 (states StartUpToMax WaitAlwaysStarts (init_ex w1) ops1) /\
+  In e (states StartUpToMax WaitAlwaysStarts (second_run_start ExecShared e1 w2) ops2) /\
+  w2 < List.length (running e).
+Proof. exact shared_executor_refuted. Qed.
+Print Assumptions C04_shared_executor_refuted.
